@@ -123,6 +123,9 @@ def gen_case(rng, ttys):
         nfields=rng.choice([52] * 6 + [39, 40, 41, 42, 44, 47, 51]),
         threads=[],
     )
+    if rng.random() < 0.04:
+        # a pseudo-terminal closed while the (memoized) device map is being built: listed by the directory scan, gone at stat()
+        case["pty_vanish"] = rng.choice(FAKE_PTS)
     comm_b = _b(case["comm"])
     if 0 < len(comm_b) < 15 and b"\0" not in comm_b and rng.random() < 0.35:
         # a name the kernel did NOT truncate must be reported as is, whatever argv[0] looks like (the 15-byte
@@ -209,6 +212,17 @@ def run_case(case, acc):
     vk.rdev = {f"/dev/pts/{n}": os.makedev(136, n) for n in FAKE_PTS}
     viols = []
     ttymap = dict(env["ttys"])
+    victim = case.get("pty_vanish")
+    tmap_fn = getattr(ps._psposix, "get_terminal_map", None)
+    if victim is not None and tmap_fn is not None and hasattr(tmap_fn, "cache_clear"):
+        tmap_fn.cache_clear()
+        vpath = f"/dev/pts/{victim}"
+        vk.rules.append(lambda kind, path: FileNotFoundError(2, "No such file or directory", path)
+                        if kind in ("stat", "lstat") and path == vpath else None)
+        ttymap.pop(os.makedev(136, victim), None)
+        acc.count("terminal_map_built_with_vanishing_pty")
+    else:
+        victim = None
 
     def cmp(getter, got, want, feature=None):
         acc.count("getter_comparisons")
@@ -309,6 +323,8 @@ def run_case(case, acc):
                 names = [comm] + [_b(th["comm"]) for th in ths[1:]] if case["threads"] else [comm]
                 feature = "rparen_in_thread_name" if any(b")" in n for n in names) else "other"
                 viols.append((f"threads_wrong:{feature}", f"threads: got {gotd!r} want {want!r} names={names!r}"))
+    if victim is not None:
+        tmap_fn.cache_clear()          # the next case builds the full map again
     acc.case(case, nontrivial(case), viols)
 
 
